@@ -626,6 +626,7 @@ def run():
 
     mark("coq build + theorems + grid/rn32 generators")
     # ---------------------------------------------------------------- table consistency (descriptor keys -> same functions)
+    table_obligation(ck)
     table_check(F)
 
     # ---------------------------------------------------------------- separable: grid
@@ -741,27 +742,87 @@ def run():
     return ck.finish()
 
 
-def table_check(F):
-    from psd_tools.composite import blend as B
+def key_str(k):
+    """stable text of a BLEND_FUNC key (mirrors Blend/Table.v)"""
+    import enum
+
+    return "%s.%s" % (type(k).__name__, k.name) if isinstance(k, enum.Enum) else repr(k)
+
+
+def live_table():
+    from psd_tools.composite.blend import BLEND_FUNC
+
+    return [(key_str(k), getattr(f, "__name__", repr(f))) for k, f in BLEND_FUNC.items()]
+
+
+def table_obligation(ck):
+    """generated table from the live dict + the Coq lemma that it is the model table (Blend/Table.v)"""
+    q = lambda t: '"' + t.replace('"', '""') + '"'
+    live = live_table()
+    text = (
+        "(* generated by vh.c12 from psd_tools.composite.blend.BLEND_FUNC of the tree under test *)\n"
+        "From Coq Require Import String List.\n"
+        "From PsdV Require Import Blend.Num Blend.Model Blend.Table Blend.ProofsTable.\n"
+        "Import ListNotations.\nOpen Scope string_scope.\n"
+        "Definition live_table : list (string * string) := [\n  "
+        + ";\n  ".join("(%s, %s)" % (q(k), q(n)) for k, n in live)
+        + "].\n"
+        "Lemma live_table_checks : check_live live_table = true.\nProof. vm_compute. reflexivity. Qed.\n"
+        "Definition live_entries_are_proved_modes := live_table_sound live_table live_table_checks.\n"
+        "Check live_entries_are_proved_modes.\n"
+    )
+    ok = ck.coq_gen("BlendTable", text)
+    ck.dist["table_entries"] = len(live)
+    if not ok:
+        ck.notes.append("live BLEND_FUNC table differs from Blend/Table.v (generated file build/C12/gen/BlendTable.v does not check)")
+    return ok
+
+
+# expected table, written from blend.py's documentation of the modes, independent of Blend/Table.v
+def expected_table():
     from psd_tools.constants import BlendMode
     from psd_tools.terminology import Enum
 
-    want = dict(zip(SEP + NONSEP + ["dissolve"], SEP + NONSEP + ["dissolve"]))
-    for name in want:
-        f = B.BLEND_FUNC.get(getattr(BlendMode, name.upper()))
+    exp = {getattr(BlendMode, n.upper()): n for n in SEP + NONSEP + ["dissolve"]}
+    exp.update({
+        Enum.Normal: "normal", Enum.Multiply: "multiply", Enum.Screen: "screen", Enum.Overlay: "overlay", Enum.Darken: "darken",
+        Enum.Lighten: "lighten", Enum.ColorDodge: "color_dodge", Enum.ColorBurn: "color_burn", b"linearDodge": "linear_dodge",
+        b"linearBurn": "linear_burn", Enum.HardLight: "hard_light", Enum.SoftLight: "soft_light", b"vividLight": "vivid_light",
+        b"linearLight": "linear_light", b"pinLight": "pin_light", b"hardMix": "hard_mix", b"blendDivide": "divide",
+        Enum.Difference: "difference", Enum.Exclusion: "exclusion", Enum.Subtract: "subtract", Enum.Hue: "hue",
+        Enum.Saturation: "saturation", Enum.Color: "color", Enum.Luminosity: "luminosity", b"darkerColor": "darker_color",
+        b"ligherColor": "lighter_color",  # sic, as spelt in blend.py
+        Enum.Dissolve: "dissolve"})
+    return exp
+
+
+def probe_signature(f, chans):
+    """behaviour of a table entry on a fixed probe (so that a wrapper with the right __name__ cannot pass for the function)"""
+    rng = np.random.default_rng(12)
+    Cb = rng.random((4, 5, chans), dtype=F32)
+    Cs = rng.random((4, 5, chans), dtype=F32)
+    r, exc, _ = call(f, Cb, Cs)
+    return None if r is None else y24(r).tobytes()
+
+
+def table_check(F):
+    from psd_tools.composite import blend as B
+
+    exp = expected_table()
+    for key, name in exp.items():
+        f = B.BLEND_FUNC.get(key)
         g_ = getattr(B, name, None)
-        if f is None or f is not g_:
-            F.add("table", {"mode": name, "path": "table"}, repr(f), "blend.%s" % name)
-    desc = {Enum.Normal: "normal", Enum.Multiply: "multiply", Enum.Screen: "screen", Enum.Overlay: "overlay", Enum.Darken: "darken",
-            Enum.Lighten: "lighten", Enum.ColorDodge: "color_dodge", Enum.ColorBurn: "color_burn", b"linearDodge": "linear_dodge",
-            b"linearBurn": "linear_burn", Enum.HardLight: "hard_light", Enum.SoftLight: "soft_light", b"vividLight": "vivid_light",
-            b"linearLight": "linear_light", b"pinLight": "pin_light", b"hardMix": "hard_mix", b"blendDivide": "divide",
-            Enum.Difference: "difference", Enum.Exclusion: "exclusion", Enum.Subtract: "subtract", Enum.Hue: "hue",
-            Enum.Saturation: "saturation", Enum.Color: "color", Enum.Luminosity: "luminosity", b"darkerColor": "darker_color",
-            Enum.Dissolve: "dissolve"}
-    for key, name in desc.items():
-        if B.BLEND_FUNC.get(key) is not getattr(B, name, None):
-            F.add("table", {"mode": name, "path": "table", "key": repr(key)}, repr(B.BLEND_FUNC.get(key)), "blend.%s" % name)
+        ctx = {"mode": name, "path": "table", "key": key_str(key)}
+        if f is None:
+            F.add("table", ctx, "key missing from BLEND_FUNC", "blend.%s" % name)
+        elif f is not g_:
+            same = g_ is not None and probe_signature(f, 3) == probe_signature(g_, 3)
+            if not same:
+                F.add("table", ctx, "blend.%s" % getattr(f, "__name__", repr(f)), "blend.%s" % name)
+    for key, f in B.BLEND_FUNC.items():
+        if key not in exp:
+            F.add("table", {"mode": getattr(f, "__name__", repr(f)), "path": "table", "key": key_str(key)},
+                  "unexpected key bound to blend.%s" % getattr(f, "__name__", repr(f)), "no such key")
 
 
 def rgb_special_colours():
@@ -951,6 +1012,11 @@ def replay(path):
         r, exc, pure = call(fn(inp["mode"]), Cb, Cs)
         print("BLEND_FUNC[%s](Cb=%r, Cs=%r) ->" % (inp["mode"], cb, cs), repr(exc) if exc is not None else fl(r),
               "| arguments untouched:", True if pure is True else "NO, %s was modified in place" % pure.which)
+    if inp.get("path") == "table":
+        from psd_tools.composite.blend import BLEND_FUNC
+
+        now = {key_str(k): getattr(v, "__name__", repr(v)) for k, v in BLEND_FUNC.items()}
+        print("BLEND_FUNC[%s] ->" % inp.get("key"), now.get(inp.get("key"), "(no such key)"))
     print("observed at check time:", f["observed"])
     print("expected:", f["expected"], ("(tol %r)" % f["tol"]) if "tol" in f else "")
     return 1
